@@ -431,7 +431,7 @@ template< typename T, typename F>
 {
    if (mpObject == nullptr)
       throw std::invalid_argument( "no object assigned to iterator");
-   if (idx > mIndex)
+   if ((mIndex == EndValue) || (idx > mIndex))
       throw std::range_error( "string index out of range");
    return (*mpObject)[ mIndex - idx];
 } // FixedStringReverseIterator< T, F>::operator[]
